@@ -99,9 +99,10 @@ MM = {
         ('// deal with castling, here we also make sure', 0, 'let ghost pre_ca = *board;'),
     ],
     'block_end': [
-        ('board.pawn_double_move = Some(target)', 0, """@C04,C05| proof {
+        ('board.pawn_double_move = Some(', 0, """@C04,C05| proof {
                 let s = &*board; let h = zobrist_hasher;
-                let e = h.ep(target.1 as int);
+                // named through the field, not through the local that holds the target: a renamed local keeps verifying (N7)
+                let e = h.ep(match s.pawn_double_move { Some(p) => p.1 as int, None => 0int });
                 lemma_key_component(kp(s, h), ks(s, h), kc1(s, h), kc2(s, h), kc3(s, h), kc4(s, h), 0u64, e);
                 assert(key_ok(s, h));
             }"""),
